@@ -316,6 +316,181 @@ def bound_to_ref_param(tu, sy, inl, n):
     return False
 
 
+HANDLE_FNS = {}         # id(tu) -> ids of the recognised locked-handle accessors of that unit
+
+
+def recognise_handles(ctx, tu, sy, rec, T):
+    """The "locked handle" idiom: a member function of the class returns, by value, a small record H that holds a
+    std::unique_lock / std::lock_guard member and a pointer member; the lock member is constructed on the class mutex of *this and
+    the pointer member is bound to a guarded member of *this (`return {std::unique_lock<std::mutex>(mutex), &member};`); H's
+    operator-> / operator* return exactly that pointer / its pointee and H has no other member function.  Then the lifetime of
+    the handle object is a lock scope - the full expression for a temporary, the enclosing scope for a named local that is
+    initialised from the call - and `handle->...` / `*handle` are accesses to the member made under that lock.  If the lock member
+    is constructed with std::defer_lock the handle does not lock (its accesses are then unlocked accesses).  Any other shape is
+    not recognised (the existing rules then report the escaping address as undecided)."""
+    inl = inliner(tu, T)
+    inl.skip = set(getattr(inl, 'skip', ()))
+    for f in tu.functions.values():
+        if f['dep'] or f.get('rec') != rec or tu.body(f) is None or f.get('ctor') or f.get('dtor'):
+            continue
+        stmts = tu.kids(tu.body(f))
+        if len(stmts) != 1 or stmts[0].get('kind') != 'ReturnStmt' or not tu.kids(stmts[0]):
+            continue
+        rt = f['fty'].split('(')[0].strip()
+        hr = tu.records_by_type.get(rt) or tu.records_by_type.get(rt.replace('const ', ''))
+        # the return type as written may be a dependent alias: find the record through the returned expression's type
+        init = tu.strip(tu.kids(stmts[0])[0])
+        while init is not None and init.get('kind') in ('CXXConstructExpr', 'CXXFunctionalCastExpr', 'CXXTemporaryObjectExpr') and \
+                len(tu.kids(init)) == 1 and (tu.strip(tu.kids(init)[0]) or {}).get('kind') == 'InitListExpr':
+            init = tu.strip(tu.kids(init)[0])
+        if init is None or init.get('kind') != 'InitListExpr':
+            continue
+        hr = hr or tu.records_by_type.get(tu.sd(init).get('ct', ''))
+        if hr is None or not hr.get('fields'):
+            continue
+        hf = hr['fields']
+        locks = [x for x in hf if x['ct'].startswith(('std::unique_lock<', 'std::lock_guard<'))]
+        ptrs = [x for x in hf if x['ct'].rstrip().endswith('*')]
+        if len(hf) != 2 or len(locks) != 1 or len(ptrs) != 1:
+            continue
+        vals = tu.kids(init)
+        if len(vals) != 2:
+            continue
+        li, pi = (0, 1) if hf[0] is locks[0] or hf[0]['name'] == locks[0]['name'] else (1, 0)
+        lc = tu.strip(vals[li], casts=True)
+        while lc is not None and lc.get('kind') in ('CXXConstructExpr', 'CXXTemporaryObjectExpr') and len(tu.kids(lc)) == 1 and \
+                (tu.strip(tu.kids(lc)[0], casts=True) or {}).get('kind') in ('CXXConstructExpr', 'CXXTemporaryObjectExpr'):
+            lc = tu.strip(tu.kids(lc)[0], casts=True)          # the move of the freshly constructed lock into the member
+        if lc is None or lc.get('kind') not in ('CXXConstructExpr', 'CXXTemporaryObjectExpr') or tu.sd(lc).get('rec') not in ('std::unique_lock', 'std::lock_guard'):
+            continue
+        largs = [a for a in tu.kids(lc) if (tu.strip(a) or {}).get('kind') != 'CXXDefaultArgExpr']
+        mx = sy.mutex_expr(largs[0]) if largs else None
+        if mx is None or sy.field(mx) != (rec, T['mutex']) or not sy.base_is_this(mx):
+            continue
+        held = True
+        if len(largs) == 2:
+            tag = tu.sd(tu.strip(largs[1], casts=True)).get('ct', '') or ''
+            if 'defer_lock_t' in tag:
+                held = False
+            else:
+                continue
+        elif len(largs) != 1:
+            continue
+        pe = tu.strip(vals[pi], casts=True)
+        if pe is None or pe.get('kind') != 'UnaryOperator' or pe.get('opcode') != '&':
+            continue
+        tgt = sy.field(tu.kids(pe)[0])
+        if tgt is None or tgt[0] != rec or tgt[1] not in T['guarded'] or not sy.base_is_this(tu.kids(pe)[0]):
+            continue
+        # the handle class: operator-> returns the pointer member, operator* its pointee; nothing else
+        hfns = [h for h in tu.functions.values() if not h['dep'] and h.get('rec') == hr['q'] and h.get('recid') == hr['id']]
+        ok, ops = True, set()
+        for h in hfns:
+            if h.get('ctor') or h.get('dtor') or h.get('assign'):
+                continue
+            nm = last(h['q'])
+            body = tu.body(h)
+            hs = tu.kids(body) if body is not None else []
+            rx = tu.strip(tu.kids(hs[0])[0], casts=True) if len(hs) == 1 and hs[0].get('kind') == 'ReturnStmt' and tu.kids(hs[0]) else None
+            if nm == 'operator->' and rx is not None and rx.get('kind') == 'MemberExpr' and rx.get('name') == ptrs[0]['name']:
+                ops.add(h['id'])
+            elif nm == 'operator*' and rx is not None and rx.get('kind') == 'UnaryOperator' and rx.get('opcode') == '*' and \
+                    (tu.strip(tu.kids(rx)[0], casts=True) or {}).get('kind') == 'MemberExpr' and \
+                    tu.strip(tu.kids(rx)[0], casts=True).get('name') == ptrs[0]['name']:
+                ops.add(h['id'])
+            else:
+                ok = False
+        if not ok or not ops:
+            continue
+        sy.handles[f['id']] = {'mutex': (rec, T['mutex']), 'target': tgt, 'held': held, 'ctor': lc, 'rec': hr['q'], 'lockmem': locks[0]['name']}
+        sy.handle_ops |= ops
+        HANDLE_FNS.setdefault(id(tu), set()).add(f['id'])
+        inl.skip |= {f['id']} | {h['id'] for h in tu.functions.values() if h.get('rec') == hr['q']}
+    if any(v['mutex'][0] == rec for v in sy.handles.values()):
+        ctx.note('%s: locked-handle accessor(s) recognised: %s' % (T['short'], ', '.join(sorted({
+            '%s%s' % (last(tu.functions[i]['q']), '' if v['held'] else ' (does not lock)') for i, v in sy.handles.items() if v['mutex'][0] == rec}))))
+
+
+def handle_misuse(tu, sy, fns):
+    """uses of a locked handle (or of a raw pointer taken from it) outside the modelled forms - the handle is dereferenced with
+    -> / * in place, initialises a named local handle, or its lock member is lock()ed / unlock()ed; a raw pointer `&*handle`
+    initialises a local pointer that is only dereferenced: (node, description) for everything else"""
+    if not sy.handles:
+        return
+    hrecs = {i['rec'] for i in sy.handles.values()}
+
+    def is_obj_of(call, n, names=None, ops=False):
+        if call is None or call.get('kind') not in ('CXXMemberCallExpr', 'CXXOperatorCallExpr'):
+            return False
+        cf = tu.callee_fn(call)
+        if ops and (cf is None or cf['id'] not in sy.handle_ops):
+            return False
+        if names is not None and last(tu.sd(call).get('q') or '') not in names:
+            return False
+        obj = tu.call_parts(call)[1]
+        x = tu.strip(obj, casts=True) if obj is not None else None
+        while x is not None and x is not n and x.get('kind') in ('CXXConstructExpr', 'CXXTemporaryObjectExpr') and len(tu.kids(x)) == 1:
+            x = tu.strip(tu.kids(x)[0], casts=True)
+        return x is n
+
+    def handle_local(did):
+        d = tu.node(did) if did is not None else None
+        return d is not None and d.get('kind') == 'VarDecl' and bool(tu.kids(d)) and sy.handle_call(tu.kids(d)[-1]) is not None
+
+    for fn in fns:
+        if fn['id'] in sy.handles or fn.get('rec') in hrecs or tu.body(fn) is None:
+            continue
+        for x in tu.walk(tu.body(fn)):
+            k = x.get('kind')
+            if 'id' not in x:
+                continue
+            if k == 'CXXMemberCallExpr' and (tu.callee_fn(x) or {}).get('id') in sy.handles:
+                u = nearest_user(tu, x)
+                while u is not None and u.get('kind') in ('CXXConstructExpr', 'CXXTemporaryObjectExpr') and len(tu.kids(u)) == 1 and \
+                        tu.sd(u).get('rec') in hrecs:
+                    u = nearest_user(tu, u)
+                if sy.handle_call(x) is None:
+                    yield x, 'the locked-handle accessor is called on another object'
+                elif not (is_obj_of(u, x, ops=True) or (u is not None and u.get('kind') == 'VarDecl' and handle_local(u['id']))):
+                    yield x, 'the locked handle is used other than dereferenced in place (-> / *) or kept in a local handle'
+            elif k == 'DeclRefExpr' and handle_local(x.get('referencedDecl', {}).get('id')):
+                u = nearest_user(tu, x)
+                if not (is_obj_of(u, x, ops=True) or (u is not None and u.get('kind') == 'MemberExpr' and sy.handle_lock_holder(u) is not None)):
+                    yield x, 'the local locked handle %s is used other than through -> / *' % x['referencedDecl'].get('name')
+            elif k == 'MemberExpr' and (sy.field(x) or (None,))[0] in hrecs and 'fi' in tu.sd(x):
+                u = nearest_user(tu, x)
+                if not (sy.handle_lock_holder(x) is not None and is_obj_of(u, x, names=('lock', 'unlock'))):
+                    yield x, 'the member %s of the locked handle is used directly' % x.get('name')
+            elif k == 'CXXOperatorCallExpr' and (tu.callee_fn(x) or {}).get('id') in sy.handle_ops:
+                u = nearest_user(tu, x)
+                if sy.handle_target(x) is None:
+                    yield x, 'a locked handle that is not obtained from this object is dereferenced'
+                elif u is not None and u.get('kind') == 'UnaryOperator' and u.get('opcode') == '&':
+                    vd = nearest_user(tu, u)
+                    if not (vd is not None and vd.get('kind') == 'VarDecl' and vd.get('id') in sy.ptr_alias):
+                        yield x, 'the address of the guarded member is taken through the handle and escapes its lock scope'
+                elif u is not None and u.get('kind') == 'VarDecl' and '&' in (u.get('type', {}).get('qualType') or ''):
+                    yield x, 'a local reference is bound to the guarded member through the handle'
+            elif k == 'DeclRefExpr' and x.get('referencedDecl', {}).get('id') in sy.ptr_alias:
+                u = nearest_user(tu, x)
+                uk = (u or {}).get('kind')
+                if not ((uk == 'MemberExpr' and 'fi' in tu.sd(u)) or (uk == 'UnaryOperator' and u.get('opcode') == '*') or
+                        is_obj_of(u, x)):
+                    yield x, 'the raw pointer %s to the guarded member is used other than dereferenced' % x['referencedDecl'].get('name')
+
+
+def raw_pointer_aliases(tu, sy, rec, T, fns):
+    """locals of pointer type initialised with the address of a guarded member - directly or through a handle (`&*locked()`)"""
+    for fn in fns:
+        for x in tu.walk(tu.body(fn)) if tu.body(fn) is not None else ():
+            if x.get('kind') == 'VarDecl' and 'id' in x and (x.get('type', {}).get('qualType') or '').rstrip().endswith('*') and tu.kids(x):
+                init = tu.strip(tu.kids(x)[-1], casts=True)
+                if init is not None and init.get('kind') == 'UnaryOperator' and init.get('opcode') == '&':
+                    tgt = sy.field(tu.kids(init)[0])
+                    if tgt is not None and tgt[0] == rec and tgt[1] in T['guarded'] and sy.base_is_this(tu.kids(init)[0]):
+                        sy.ptr_alias[x['id']] = tgt
+
+
 def check_guarded(ctx, tu, sy, rec, T, f, counts):
     g = tu.cfg(f)
     inl = inliner(tu, T)
@@ -337,6 +512,9 @@ def check_guarded(ctx, tu, sy, rec, T, f, counts):
                       'it is not modelled', node)
 
     srefs = slot_refs(tu, sy, inl.reachable_fns(f)) if rec == VAL else {}
+    raw_pointer_aliases(tu, sy, rec, T, inl.reachable_fns(f))
+    for x_, why_ in handle_misuse(tu, sy, inl.reachable_fns(f)):
+        found.und(R1, '%s: not modelled' % why_, x_)
     # 3. guarded members used inside a nested closure that is not invoked directly are outside the explored CFGs
     reach = inl.reachable_fns(f)
     reach_ids = {x['id'] for x in reach}
@@ -403,6 +581,18 @@ def check_guarded(ctx, tu, sy, rec, T, f, counts):
                     found.viol(R1, fn_short(cur_fn()), 'current-slot-in-producer', 'the producer-side member %s touches the consumer-confined '
                                'current slot (%s.front())' % (name, dbv_member(tu)), n)
             return [st]
+        if (sy.handles or sy.ptr_alias) and n.get('kind') in ('CXXOperatorCallExpr', 'DeclRefExpr'):
+            tgt_ = sy.handle_target(n) if (n.get('kind') == 'CXXOperatorCallExpr' or
+                                           n.get('referencedDecl', {}).get('id') in sy.ptr_alias) else None
+            if tgt_ is not None and tgt_[0] == rec and tgt_[1] in T['guarded']:
+                nacc[0] += 1
+                if not LockState.holds(locks, mutex):
+                    how = 'a raw pointer to it that outlives the handle it was taken from' if n.get('kind') == 'DeclRefExpr' else \
+                        'a handle that does not hold the lock'
+                    unlocked(R1, fn_short(cur_fn()), '%s-unlocked' % tgt_[1], 'the member %s (guarded by %s) is accessed through %s on a '
+                             'path where no lock on %s is held: data race with the other thread\'s locked access'
+                             % (tgt_[1], T['mutex'], how, T['mutex']), n)
+                return [st]
         if n.get('kind') == 'DeclRefExpr' and n.get('referencedDecl', {}).get('id') in sy.ref_alias:
             tgt = sy.deref_alias(n)
             if tgt is None or tgt.get('kind') != 'MemberExpr':
@@ -412,6 +602,8 @@ def check_guarded(ctx, tu, sy, rec, T, f, counts):
         elif bound_to_ref_param(tu, sy, inl, n):
             return [st]             # only a reference is formed here
         fld = sy.field(n)
+        if fld is not None and n.get('kind') == 'MemberExpr' and any(fld[0] == i['rec'] for i in sy.handles.values()):
+            return [st]             # (see handle_misuse)
         if fld is None or fld[0] != rec:
             return [st]
         if fld[1] in T['guarded']:
@@ -428,7 +620,9 @@ def check_guarded(ctx, tu, sy, rec, T, f, counts):
                 return [st]
             nacc[0] += 1
             if user is not None and user.get('kind') == 'UnaryOperator' and user.get('opcode') == '&':
-                found.und(R1, 'address of the guarded member %s is taken: escapes the lock scope' % fld[1], n)
+                vd = nearest_user(tu, user)
+                if not (vd is not None and vd.get('kind') == 'VarDecl' and vd.get('id') in sy.ptr_alias):
+                    found.und(R1, 'address of the guarded member %s is taken: escapes the lock scope' % fld[1], n)
             ru, hops = user, 0
             while ru is not None and hops < 5 and (ru.get('kind') in ('CXXStaticCastExpr', 'CXXConstCastExpr', 'CStyleCastExpr') or
                                                     (ru.get('kind') == 'CallExpr' and tu.sd(ru).get('q') in ('std::move', 'std::forward'))):
@@ -471,6 +665,9 @@ def own_call(tu, n, rec):
         return None
     s = tu.sd(n)
     if s.get('rec') == rec and s.get('k') == 'call':
+        cf = tu.callee_fn(n)
+        if cf is not None and cf['id'] in HANDLE_FNS.get(id(tu), ()):
+            return None                 # a recognised locked-handle accessor: modelled as a lock scope (recognise_handles)
         return last(s.get('q'))
     return None
 
@@ -507,12 +704,17 @@ def check_buffer_ops(ctx, tu, sy, f, counts):
     fld = (BUF, 'buffer')
     params = {p['id'] for p in f.get('params', [])[:1]}      # the element (+ helper parameters bound to it)
     hooks = C12Hooks(sy, found, R2, params)
+    raw_pointer_aliases(tu, sy, BUF, T, inl.reachable_fns(f))
+    for x_, why_ in handle_misuse(tu, sy, inl.reachable_fns(f)):
+        found.und(R2, '%s: not modelled' % why_, x_)
     # the buffer reached through a pointer (its address handed to a helper object): operations through that pointer are not
     # seen by the automata below, so nothing can be concluded from their absence
     for fn_ in inl.reachable_fns(f):
         for x_ in tu.walk(tu.body(fn_)) if tu.body(fn_) is not None else ():
+            vd_ = nearest_user(tu, x_) if x_.get('kind') == 'UnaryOperator' and 'id' in x_ else None
             if x_.get('kind') == 'UnaryOperator' and x_.get('opcode') == '&' and 'id' in x_ and tu.kids(x_) and \
-                    sy.field(tu.kids(x_)[0]) == fld:
+                    sy.field(tu.kids(x_)[0]) == fld and fn_['id'] not in sy.handles and \
+                    not (vd_ is not None and vd_.get('kind') == 'VarDecl' and vd_.get('id') in sy.ptr_alias):
                 found.und(R2, 'the buffer is reached through a pointer (its address is taken in %s): operations through the pointer '
                           'are not modelled' % fn_short(fn_), x_)
     inst = '%s %s' % (f['q'].replace('rkcommon::containers::', ''), f['fty'])
@@ -2317,8 +2519,9 @@ def check_tu(ctx, tu, counts):
                 check_extra_member(ctx, tu, sy, rec, T, r, extra, names[extra], counts)
         if not okrec:
             continue
+        recognise_handles(ctx, tu, sy, rec, T)
         for f in tu.functions.values():
-            if f['dep'] or f.get('rec') != rec or tu.cfg(f) is None:
+            if f['dep'] or f.get('rec') != rec or tu.cfg(f) is None or f['id'] in sy.handles:
                 continue
             if f.get('ctor') and rec == VAL and f.get('ctor') in ('default', 'other'):
                 check_flag_init(ctx, tu, sy, f, counts)
